@@ -53,8 +53,12 @@ type siteFile struct {
 		Pos  string `json:"pos"`
 		Func string `json:"func"`
 	} `json:"maps"`
-	Packages []string `json:"packages"`
-	SyncPkgs []string `json:"sync_pkgs"`
+	Packages       []string `json:"packages"`
+	SyncPkgs       []string `json:"sync_pkgs"`
+	RaceExemptPkgs []string `json:"race_exempt_pkgs"`
+	RaceVars       int      `json:"race_tracked_variables"`
+	TouchSites     int      `json:"access_sites"`
+	WriteYields    int      `json:"write_yield_sites"`
 }
 
 type driver struct {
@@ -140,6 +144,7 @@ func (d *driver) generate(i int) *proto.Scenario {
 		b.sc.Sched.Explicit = []proto.Slice{}
 		b.sc.Monitor = 0
 		b.sc.SyncPkgs = d.sites.SyncPkgs
+		b.sc.RaceExemptPkgs = d.sites.RaceExemptPkgs
 		return b.sc
 	} else if j := i - np; j < len(d.siteJobs) {
 		// T2, exhaustive over the reached sites: one map site reversed at a time
@@ -152,6 +157,7 @@ func (d *driver) generate(i int) *proto.Scenario {
 		b.sc.Sched.Explicit = []proto.Slice{}
 		b.sc.Monitor = 0
 		b.sc.SyncPkgs = d.sites.SyncPkgs
+		b.sc.RaceExemptPkgs = d.sites.RaceExemptPkgs
 		return b.sc
 	}
 	fr := newRng(seed, 7)
@@ -159,6 +165,7 @@ func (d *driver) generate(i int) *proto.Scenario {
 	b := newBuilder(seed, fam.name)
 	fam.gen(b, d.corpus, d.sites.MapSites)
 	b.sc.SyncPkgs = d.sites.SyncPkgs
+	b.sc.RaceExemptPkgs = d.sites.RaceExemptPkgs
 	return b.sc
 }
 
